@@ -235,7 +235,7 @@ def ty_s(t):
     if k == "region":
         return "'_"
     if k == "const":
-        return t["s"]
+        return re.sub(r"/#\d+", "", t["s"])
     if k in ("fndef", "closure", "coroutine", "coroutine_closure"):
         return "%s(%s)" % (k, t["def"])
     return t.get("s", "?")
